@@ -226,6 +226,16 @@ Example C13_racing_run :
   DynRemoveConc.tree_ok DynRemoveConc.ex_s0 /\ DynRemoveConc.nm_ok (b "a") /\ FSModel.is_dir DynRemoveConc.ex_s0 0 = true.
 Proof. exact DynRemoveConc.racing_run. Qed.
 
+(* ---- the premises are invariants: every tree that any sequence of the modelled operations (mkdirat / mknodat /
+   symlinkat, openat(O_CREAT), unlinkat, linkat, renameat2 with its three flag values, mkdir_all's loop, remove_all) can
+   produce from an empty root -- any order, any arguments, failing or not -- satisfies what the functional theorems
+   assume of a tree (closed2, ents_ok, uniq, dirs_ok, tree_ok) *)
+From PV Require DynInv.
+Theorem C13_every_reachable_tree_satisfies_the_premises :
+  forall ops, let s := fold_left DynInv.apply_op ops DynInv.root_only in
+  DynMkdir.closed2 s /\ DynRemove.ents_ok s /\ DynRemoveExact.uniq s /\ DynMkdirComplete.dirs_ok s /\ DynRemoveConc.tree_ok s.
+Proof. exact DynInv.reachable_premises. Qed.
+
 (* executed (non-vacuity): a/ has a sub-directory with a file, a link to a sibling and a link to the
    outside; remove_all("a") on both backends removes a and everything below, follows neither link
    (keep/ and its content stay), returns Ok; the pure function gives the same tree; remove_all of a
@@ -269,3 +279,4 @@ Print Assumptions C13_absent_entry_is_success_without_change.
 Print Assumptions C13_later_caller_succeeds_without_change.
 Print Assumptions C13_interference_free_is_spec.
 Print Assumptions C13_converges_under_racing_removers.
+Print Assumptions C13_every_reachable_tree_satisfies_the_premises.
